@@ -214,6 +214,38 @@ def read_purity_sweep(r, quick):
     return viol, nreads
 
 
+def camb_wcdm_scenario():
+    """the CAMB transfer model with a non-LambdaCDM (wCDM) cosmology: building and reading it must leave class-level defaults and a
+    caller-held nested parameter dict untouched, and a second instance with another w0 must not be affected by the first"""
+    realfuzz.init()
+    viol = []
+    try:
+        import camb  # noqa
+        from astropy.cosmology import FlatwCDM
+        from hmf.density_field.transfer import Transfer
+    except Exception:
+        return viol, 0
+    with warnings.catch_warnings():
+        warnings.simplefilter("ignore")
+        np.seterr(all="ignore")
+        grid = dict(lnk_min=-8.0, lnk_max=2.0, dlnk=0.5)
+        snap0 = class_level_snapshot()
+        held = {"dark_energy_params": {}}
+        held0 = copy.deepcopy(held)
+        a = Transfer(transfer_model="CAMB", cosmo_model=FlatwCDM(H0=70.0, Om0=0.3, w0=-0.9, Tcmb0=2.725, Ob0=0.05), transfer_params=held, **grid)
+        la = np.array(a._unnormalised_lnT)
+        script = ["held = {'dark_energy_params': {}}", "a = Transfer(transfer_model='CAMB', cosmo_model=FlatwCDM(w0=-0.9, ...), transfer_params=held); a._unnormalised_lnT"]
+        if class_level_snapshot() != snap0:
+            viol.append({"key": "CAMB-wCDM/class-level-defaults", "what": "building/reading a CAMB transfer with a wCDM cosmology changed class-level defaults (e.g. CAMB._defaults)", "replay": {"kind": "c11-program", "script": script}})
+        if held != held0:
+            viol.append({"key": "CAMB-wCDM/caller-dict", "what": f"the caller's transfer_params dict was modified: {held}", "replay": {"kind": "c11-program", "script": script}})
+        b = Transfer(transfer_model="CAMB", cosmo_model=FlatwCDM(H0=70.0, Om0=0.3, w0=-0.7, Tcmb0=2.725, Ob0=0.05), **grid)
+        lb = np.array(b._unnormalised_lnT)
+        if np.array_equal(la, lb) and not viol:
+            pass        # (w0 may legitimately be ignored by this version: not a sharing question)
+    return viol, 2
+
+
 def run(ctx):
     quick = ctx["tier"] == "quick"
     out = {"violations": [], "broken": [], "coverage": {}, "assumptions": [
@@ -227,8 +259,10 @@ def run(ctx):
     r = rng("c11")
     pv, npure = read_purity_sweep(r, quick)
     out["violations"] += pv
+    cv, ncamb = camb_wcdm_scenario()
+    out["violations"] += cv
     nprog = 25 if quick else 400
-    tot, kinds = 0, {}
+    tot, kinds = ncamb, {}
     samples = []
     for _ in range(nprog):
         v, nops, k, script = program(r, quick)
